@@ -2,9 +2,12 @@
    of the graph.  Statements only; proofs in theories/L6Graph/*Proofs.v.
 
    The definitions named Logicizer.* / Formula.* are the hand-written model of
-   omega/symbolic/logicizer.py and omega.logic.syntax.conj/disj; the
-   correspondence check of tools/props/c20.py compares them with the real
-   code on every run.  Labels are given semantically: an edge formula l means
+   omega/symbolic/logicizer.py and omega.logic.syntax.conj/disj.  The model
+   is tied to the code twice on every run: the functions are translated from
+   the current source into gen/LogicizerGen.v and proved equal to the model
+   (section C20T below, GenProofs/LogicizerBridge.v), and the correspondence
+   check of tools/props/c20.py compares the model with the BDDs of the real
+   code.  Labels are given semantically: an edge formula l means
    [esem l s s'], a node formula [nsem l s]; the theorems hold for every
    choice of these meanings, every graph, every pair of valuations (also
    values of the node variable outside the graph) and every combination of
@@ -13,6 +16,8 @@ From Coq Require Import List Bool ZArith Arith Lia.
 Import ListNotations.
 From Omega Require Import L6Graph.Formula L6Graph.FormulaProofs
   L6Graph.Logicizer L6Graph.GraphSpec L6Graph.LogicizerProofs.
+From OmegaGen Require Import LogicizerGen.
+From OmegaGP Require Import LogicizerBridge.
 
 Section C20.
 Variables EL NL : Type.
@@ -179,6 +184,146 @@ Proof. exact (initial_runs_are_paths EL NL esem nsem). Qed.
 
 End C20.
 
+(* ---- tie T: the model is the translated code --------------------------- *)
+(* coq/gen/LogicizerGen.v is regenerated from omega/symbolic/logicizer.py and
+   omega/logic/syntax.py on every run (tools/py2coq_logicizer.py: formula
+   strings become formula trees through a fixed table of templates printed in
+   the generated file); GenProofs/LogicizerBridge.v proves it equal to the
+   hand-written model.  [code_accepts]: the code does not raise (non-empty
+   graph; initial nodes unless ignore_initial); [labels_ok]: no edge label
+   assigns the primed node variable (`t[nodevar'] = v` then appends). *)
+Section C20T.
+Variables EL NL : Type.
+Variable esem : EL -> val -> val -> bool.
+Variable nsem : NL -> val -> bool.
+Local Notation eval := (@eval EL NL esem nsem).
+Local Notation tsys := (tsys EL NL).
+Local Notation form := (form EL NL).
+
+(* `_recurse_op(a, b, h, true, false, glue)` on indices, with fuel, is the
+   model's recursion on the sublist h[a:b]: same tree *)
+Theorem C20_recurse_op_is_translated_code :
+  forall fuel a b (h : list form) t f gl,
+  a <= b -> b <= length h -> b - a < fuel ->
+  stx_recurse_op EL NL fuel a b h t f gl
+  = recurse_op (b - a) (fun x => str_is EL NL x t) (fun x => str_is EL NL x f)
+               t f (gop_mk EL NL gl) (firstn (b - a) (skipn a h)).
+Proof. exact (stx_recurse_op_eq EL NL). Qed.
+
+Theorem C20_conj_is_translated_code : forall items,
+  stx_conj EL NL items OpConj = conj items.
+Proof. exact (stx_conj_eq EL NL). Qed.
+
+Theorem C20_disj_is_translated_code : forall items,
+  stx_disj EL NL items OpDisj = disj items.
+Proof. exact (stx_disj_eq EL NL). Qed.
+
+(* graph_to_logic: the four formulas (same trees), the declared range of the
+   node variable and the variable lists; the Python set of
+   `_env_trans_from_sys_ts` iterated in insertion order *)
+Theorem C20_model_is_translated_code : forall (g : tsys) nd ign rec sl,
+  code_accepts EL NL ign g -> labels_ok EL NL nd g ->
+  let a := lz_graph_to_logic EL NL (fun l => l) g nd ign rec sl in
+  aut_of EL NL a = graph_to_logic nd ign rec sl g
+  /\ a_nd_dom EL NL a = nodevar_dom g
+  /\ (a_env_vars EL NL a, a_sys_vars EL NL a) = varlists nd g.
+Proof. exact (translated_graph_to_logic_is_model EL NL). Qed.
+
+(* for EVERY iteration order / removal of duplicates [so] of that set: three
+   formulas are the model's trees, the fourth has the model's meaning *)
+Theorem C20_translated_meaning : forall so,
+  (forall l x, In x (so l) <-> In x l) ->
+  forall (g : tsys) nd ign rec sl,
+  code_accepts EL NL ign g -> labels_ok EL NL nd g ->
+  forall s s',
+  let a := translated EL NL so g nd ign rec sl in
+  let m := graph_to_logic nd ign rec sl g in
+  env_init a = env_init m /\ sys_init a = sys_init m
+  /\ sys_action a = sys_action m
+  /\ eval (env_action a) s s' = eval (env_action m) s s'.
+Proof. exact (translated_meaning EL NL esem nsem). Qed.
+
+(* the main theorems, about the translated code *)
+Theorem C20_translated_owner_action_exact : forall so,
+  (forall l x, In x (so l) <-> In x l) ->
+  forall (g : tsys) nd ign rec sl,
+  code_accepts EL NL ign g -> labels_ok EL NL nd g ->
+  forall s s',
+  eval (owner_action (translated EL NL so g nd ign rec sl) g) s s'
+  = owner_action_sem esem nsem nd sl g s s'.
+Proof. exact (translated_owner_action_exact EL NL esem nsem). Qed.
+
+Theorem C20_translated_owner_action_spec : forall so,
+  (forall l x, In x (so l) <-> In x l) ->
+  forall (g : tsys) nd ign rec sl,
+  code_accepts EL NL ign g -> labels_ok EL NL nd g ->
+  forall s s',
+  In (s nd) (map fst (ts_nodes g)) ->
+  eval (owner_action (translated EL NL so g nd ign rec sl) g) s s' = true <->
+  ((exists u v l, In (u, v, l) (ts_edges g) /\ u = s nd /\ v = s' nd
+                  /\ elabel_holds esem (in_dvars nd g) l s s' = true)
+   \/ (sl = true /\ s' nd = s nd))
+  /\ node_labels_hold nsem nd g s' = true.
+Proof. exact (translated_owner_action_spec EL NL esem nsem). Qed.
+
+Theorem C20_translated_init_spec : forall so,
+  (forall l x, In x (so l) <-> In x l) ->
+  forall (g : tsys) nd ign rec sl,
+  code_accepts EL NL ign g -> labels_ok EL NL nd g ->
+  forall s s',
+  eval (owner_init (translated EL NL so g nd ign rec sl) g) s s' = true <->
+  (ign = true \/ In (s nd) (ts_initial g))
+  /\ node_labels_hold nsem nd g s = true.
+Proof. exact (translated_init_spec EL NL esem nsem). Qed.
+
+Theorem C20_translated_other_player : forall so,
+  (forall l x, In x (so l) <-> In x l) ->
+  forall (g : tsys) nd ign rec sl,
+  code_accepts EL NL ign g -> labels_ok EL NL nd g ->
+  forall s s',
+  eval (other_action (translated EL NL so g nd ign rec sl) g) s s'
+  = if ts_owner_sys g && rec then receptive_sem esem nd g s s' else true.
+Proof. exact (translated_other_action_exact EL NL esem nsem). Qed.
+
+Theorem C20_translated_other_player_unconstrained : forall so,
+  (forall l x, In x (so l) <-> In x l) ->
+  forall (g : tsys) nd ign rec sl,
+  code_accepts EL NL ign g -> labels_ok EL NL nd g ->
+  forall s s',
+  ts_owner_sys g && rec = false ->
+  eval (other_action (translated EL NL so g nd ign rec sl) g) s s' = true
+  /\ eval (other_init (translated EL NL so g nd ign rec sl) g) s s' = true.
+Proof. exact (translated_other_player_unconstrained EL NL esem nsem). Qed.
+
+Theorem C20_translated_runs_are_paths : forall so,
+  (forall l x, In x (so l) <-> In x l) ->
+  forall (g : tsys) nd ign rec sl,
+  code_accepts EL NL ign g -> labels_ok EL NL nd g ->
+  wf_graph g ->
+  forall rest s0,
+  In (s0 nd) (node_ids g) ->
+  chain (fun s t =>
+           eval (owner_action (translated EL NL so g nd ign rec sl) g) s t
+           = true) s0 rest
+  <-> chain (graph_step esem nsem nd sl g) s0 rest
+      /\ Forall (fun s => In (s nd) (node_ids g)) rest.
+Proof. exact (translated_runs_are_paths EL NL esem nsem). Qed.
+
+(* `_recurse_op` as `conj` / `disj` call it *)
+Theorem C20_translated_recurse_op_sem_conj : forall (h : list form) s s',
+  eval (stx_recurse_op EL NL (S (length h)) 0 (length h) h FFalse FTrue
+                       OpConj) s s'
+  = forallb (fun f => eval f s s') h.
+Proof. exact (translated_recurse_op_sem_conj EL NL esem nsem). Qed.
+
+Theorem C20_translated_recurse_op_sem_disj : forall (h : list form) s s',
+  eval (stx_recurse_op EL NL (S (length h)) 0 (length h) h FTrue FFalse
+                       OpDisj) s s'
+  = existsb (fun f => eval f s s') h.
+Proof. exact (translated_recurse_op_sem_disj EL NL esem nsem). Qed.
+
+End C20T.
+
 (* ---- non-vacuity and regression examples ------------------------------- *)
 Section Examples.
 Local Open Scope Z_scope.
@@ -292,6 +437,46 @@ Example C20_example_balanced :
   = FAnd (FAnd (FAnd (a 0) (a 1)) (FAnd (a 2) (a 3))) (a 4).
 Proof. reflexivity. Qed.
 
+(* hypotheses of the C20_translated_* theorems are satisfiable: the graph of
+   the pinned test is accepted by the code, its labels do not assign k', and
+   both the insertion order and its reverse are admissible set orders *)
+Example C20_example_translated_hyp :
+  code_accepts unit unit true ex_g /\ labels_ok unit unit ex_k ex_g
+  /\ (forall (l : list (form unit unit)) x, In x ((fun l => l) l) <-> In x l)
+  /\ (forall (l : list (form unit unit)) x, In x (rev l) <-> In x l).
+Proof.
+  split; [split; [discriminate|discriminate]|].
+  split; [|split; [tauto|intros; symmetry; apply in_rev]].
+  intros u v d H. cbn in H.
+  destruct H as [H|[H|[H|[]]]]; inversion H; subst; cbn;
+    intuition discriminate.
+Qed.
+
+(* the TRANSLATED code builds the tree of the string pinned by
+   tests/symbolic_test.py::test_logicizer_env *)
+Example C20_example_translated_pinned_string :
+  env_action (translated unit unit (fun l => l) ex_g ex_k true false true)
+  = FOr (FAnd (FAnd (FImp (FAsg false ex_k 0)
+                          (FAnd (FAsg false ex_x 1) (FAsg true ex_k 1)))
+                    (FImp (FAsg false ex_k 1)
+                          (FAnd (FELab tt) (FAsg true ex_k 2))))
+              (FImp (FAsg false ex_k 2) (FAsg true ex_k 1)))
+        (FStutter ex_k).
+Proof. reflexivity. Qed.
+
+(* receptiveness through the translated code, the set iterated in reverse *)
+Example C20_example_translated_receptive :
+  code_accepts unit unit false ex_rec /\ labels_ok unit unit ex_k ex_rec /\
+  eval ex_esem ex_nsem
+       (env_action (translated unit unit (@rev _) ex_rec ex_k false true
+                               false))
+       (ex_val 0 0) (ex_val 1 0) = true.
+Proof.
+  split; [split; discriminate|]. split; [|vm_compute; reflexivity].
+  intros u v d H. cbn in H. destruct H as [H|[]]. inversion H. subst. cbn.
+  intuition discriminate.
+Qed.
+
 End Examples.
 
 Print Assumptions C20_split_point.
@@ -311,3 +496,16 @@ Print Assumptions C20_nodevar_dom_spec.
 Print Assumptions C20_varlists_spec.
 Print Assumptions C20_runs_are_paths.
 Print Assumptions C20_initial_runs_are_paths.
+Print Assumptions C20_recurse_op_is_translated_code.
+Print Assumptions C20_conj_is_translated_code.
+Print Assumptions C20_disj_is_translated_code.
+Print Assumptions C20_model_is_translated_code.
+Print Assumptions C20_translated_meaning.
+Print Assumptions C20_translated_owner_action_exact.
+Print Assumptions C20_translated_owner_action_spec.
+Print Assumptions C20_translated_init_spec.
+Print Assumptions C20_translated_other_player.
+Print Assumptions C20_translated_other_player_unconstrained.
+Print Assumptions C20_translated_runs_are_paths.
+Print Assumptions C20_translated_recurse_op_sem_conj.
+Print Assumptions C20_translated_recurse_op_sem_disj.
